@@ -395,27 +395,32 @@ class WithOptions(Evaluatable[B]):
         """Validate the wrapped Evaluatable object with the provided options."""
         self.evaluatable.validate(self._options(options))
 
+    def _provided(self, key: str, options: Options, mixed: Options) -> bool:
+        """Whether the value under key is supplied entirely by the wrapper's options."""
+        if not dotted_key_exists(key, self.options):
+            return False
+        if self.force:
+            # a forced section is still merged with the caller's entries for it
+            return get_dotted_key(key, mixed) == get_dotted_key(key, self.options)
+        return not dotted_key_exists(key, options)
+
     def keys(self, options: Options) -> Set[str]:
         """Return the keys required by the wrapped Evaluatable object."""
+        mixed = self._options(options)
         return {
             key
-            for key in self.evaluatable.keys(self._options(options))
-            if not (
-                dotted_key_exists(key, self.options)
-                and (self.force or not dotted_key_exists(key, options))
-            )
+            for key in self.evaluatable.keys(mixed)
+            if not self._provided(key, options, mixed)
         }
 
     def explain(self, options: Optional[Options] = None) -> Set[str]:
         """Return the explanation for the wrapped Evaluatable object."""
         options = options or {}
+        mixed = self._options(options)
         return {
             key
-            for key in self.evaluatable.explain(self._options(options))
-            if not (
-                dotted_key_exists(key, self.options)
-                and (self.force or not dotted_key_exists(key, options))
-            )
+            for key in self.evaluatable.explain(mixed)
+            if not self._provided(key, options, mixed)
         }
 
     def __repr__(self) -> str:
